@@ -248,8 +248,41 @@ impl<'tcx> Dumper<'tcx> {
         }
         if let Const::Unevaluated(uv, _) = c.const_ {
             items.push(("cdef", js(&self.path(uv.def))));
-            if uv.promoted.is_some() {
+            if let Some(pidx) = uv.promoted {
                 items.push(("promoted", jbool(true)));
+                // which named constants the promoted expression mentions (e.g. `&general_purpose::STANDARD`)
+                if uv.def.is_local() {
+                    let pm = tcx.promoted_mir(uv.def);
+                    if pidx.index() < pm.len() {
+                        let mut srcs: Vec<String> = Vec::new();
+                        for bbd in pm[pidx].basic_blocks.iter() {
+                            for st in bbd.statements.iter() {
+                                if let StatementKind::Assign(b) = &st.kind {
+                                    let mut ops: Vec<&Operand<'tcx>> = Vec::new();
+                                    match &b.1 {
+                                        Rvalue::Use(o, ..) => ops.push(o),
+                                        Rvalue::Aggregate(_, os) => {
+                                            for o in os.iter() {
+                                                ops.push(o);
+                                            }
+                                        }
+                                        _ => {}
+                                    }
+                                    for o in ops {
+                                        if let Operand::Constant(cc) = o {
+                                            if let Const::Unevaluated(u2, _) = cc.const_ {
+                                                if u2.promoted.is_none() {
+                                                    srcs.push(js(&self.path(u2.def)));
+                                                }
+                                            }
+                                        }
+                                    }
+                                }
+                            }
+                        }
+                        items.push(("psrc", jlist(&srcs)));
+                    }
+                }
             }
         }
         let tenv = TypingEnv::post_analysis(tcx, owner);
@@ -271,6 +304,20 @@ impl<'tcx> Dumper<'tcx> {
                 if let Const::Val(cv, _) = c.const_ {
                     if let Some(bytes) = cv.try_get_slice_bytes_for_diagnostics(tcx) {
                         items.push(("s", js(&String::from_utf8_lossy(bytes))));
+                    }
+                }
+            } else if let ty::Adt(..) = inner.kind() {
+                // reference to a plain-data constant (e.g. &percent_encoding::AsciiSet): dump the pointee's bytes
+                if let Ok(ConstValue::Scalar(mir::interpret::Scalar::Ptr(ptr, _))) = c.const_.eval(tcx, tenv, rustc_span::DUMMY_SP) {
+                    let (prov, off) = ptr.into_raw_parts();
+                    if let Some(mir::interpret::GlobalAlloc::Memory(m)) = tcx.try_get_global_alloc(prov.alloc_id()) {
+                        let a = m.inner();
+                        let start = off.bytes() as usize;
+                        if start <= a.len() && a.len() - start <= 1024 && a.provenance().ptrs().is_empty() {
+                            let bytes = a.inspect_with_uninit_and_ptr_outside_interpreter(start..a.len());
+                            let hex: String = bytes.iter().map(|b| format!("{:02x}", b)).collect();
+                            items.push(("pb", js(&hex)));
+                        }
                     }
                 }
             } else if let ty::Array(elem, len) = inner.kind() {
@@ -669,16 +716,21 @@ impl<'tcx> Dumper<'tcx> {
     fn body_j(&mut self, did: LocalDefId) -> Option<String> {
         let tcx = self.tcx;
         let kind = tcx.def_kind(did);
+        let is_const_item = matches!(kind, DefKind::Const { .. } | DefKind::Static { .. });
         let kind_s = match kind {
             DefKind::Fn => "fn",
             DefKind::AssocFn => "assoc_fn",
             DefKind::Closure => "closure",
+            _ if is_const_item => "const",
             _ => return None,
         };
         if tcx.is_constructor(did.to_def_id()) {
             return None;
         }
-        let body: &Body<'tcx> = tcx.optimized_mir(did);
+        if is_const_item && tcx.generics_of(did).count() != 0 {
+            return None;
+        }
+        let body: &Body<'tcx> = if is_const_item { tcx.mir_for_ctfe(did) } else { tcx.optimized_mir(did) };
         let (file, line, _) = self.loc(body.span);
         let mut items: Vec<(&str, String)> = vec![
             ("path", js(&self.path(did.to_def_id()))),
@@ -1102,7 +1154,9 @@ fn dump_crate<'tcx>(tcx: TyCtxt<'tcx>, out_dir: &str, tag: &str) {
     let mut n_blocks = 0usize;
     for did in keys {
         if let Some(b) = d.body_j(did) {
-            n_blocks += tcx.optimized_mir(did).basic_blocks.len();
+            if matches!(tcx.def_kind(did), DefKind::Fn | DefKind::AssocFn | DefKind::Closure) {
+                n_blocks += tcx.optimized_mir(did).basic_blocks.len();
+            }
             bodies.push(b);
         }
     }
